@@ -44,7 +44,7 @@ class C04(FCheck):
             self._only_finalisation = False
 
     def gen_case(self, r, idx, tier):
-        if idx % 10 == 7:
+        if idx % 5 == 2:
             # race shape (cf. C06): many files of two or three blocks under parblock, so that the last two holders of a handle finish
             # close together; only the finalisation calls are failed here
             bs = r.choice([4096, 8192])
